@@ -554,7 +554,11 @@ func (g *c12Gen) target(src *c12Node, mode string) *c12Target {
 	}
 	regroup()
 	// delete
-	for k := r.Intn(3); k > 0; k-- {
+	ndel := r.Intn(3)
+	if mode == "permute" {
+		ndel = 0
+	}
+	for k := ndel; k > 0; k-- {
 		grp := groups[r.Intn(len(groups))]
 		if len(grp.fields) > 1 {
 			i := r.Intn(len(grp.fields))
@@ -565,10 +569,18 @@ func (g *c12Gen) target(src *c12Node, mode string) *c12Target {
 	}
 	// permute
 	for _, grp := range groups {
-		if r.Intn(2) == 0 && len(grp.fields) > 1 {
+		if (r.Intn(2) == 0 || mode == "permute") && len(grp.fields) > 1 {
+			before := append([]*c12Node(nil), grp.fields...)
 			r.Shuffle(len(grp.fields), func(i, j int) { grp.fields[i], grp.fields[j] = grp.fields[j], grp.fields[i] })
+			if mode == "permute" && reflect.DeepEqual(before, grp.fields) {
+				// the shuffle came out as the identity: rotate, so that the order really changes
+				grp.fields = append(grp.fields[1:len(grp.fields):len(grp.fields)], grp.fields[0])
+			}
 			t.ops = append(t.ops, "permute "+grp.name)
 		}
+	}
+	if mode == "permute" && len(t.ops) == 0 {
+		t.mode = "drop-permute" // no group with two fields: the target is the source itself
 	}
 	var allFields func(n *c12Node, f func(parent, fld *c12Node))
 	allFields = func(n *c12Node, f func(parent, fld *c12Node)) {
@@ -746,6 +758,13 @@ type c12Out struct {
 	nrows   int
 	raw     []parquet.Row     // row paths only
 	rawCols [][]parquet.Value // convert-rowgroup-chunks only: the values as served by the chunks
+	extra   []c12Extra        // further L1 failures of the path (page slices, seeks)
+}
+
+// c12Extra is an L1 failure a path found besides the comparison of its output streams.
+type c12Extra struct {
+	key, what string
+	detail    map[string]any
 }
 
 type c12Case struct {
@@ -755,6 +774,7 @@ type c12Case struct {
 	file       []byte
 	batch      int
 	tleaves    []c12Leaf
+	cuts       *rand.Rand // page slice bounds and seek positions of the column-chunk path
 }
 
 func (c *c12Case) open() (*parquet.File, error) {
@@ -853,6 +873,168 @@ func c12ChunkValues(cc parquet.ColumnChunk) (vals []parquet.Value, err error) {
 	return vals, fmt.Errorf("ReadPage does not terminate")
 }
 
+// c12SlicedChunk reads a column chunk of a converted row group again (1) through slices of its
+// pages cut at random row bounds and (2) after Pages().SeekToRow(k). Whatever the cuts, the chunk
+// must serve the values `whole` (what plain ReadPage calls gave), every value and every sliced
+// page under the target column index `ci`.
+func c12SlicedChunk(cc parquet.ColumnChunk, ci int, whole []parquet.Value, r *rand.Rand) (fails []c12Extra) {
+	fail := func(key, what string, detail map[string]any) {
+		if detail == nil {
+			detail = map[string]any{}
+		}
+		detail["target_column_index"] = ci
+		fails = append(fails, c12Extra{key, what, detail})
+	}
+	text := func(vs []parquet.Value) string {
+		var sb strings.Builder
+		for i, v := range vs {
+			if i > 0 {
+				sb.WriteString(" ")
+			}
+			fmt.Fprintf(&sb, "%+v", v)
+		}
+		return sb.String()
+	}
+	same := func(a, b []parquet.Value) bool {
+		if len(a) != len(b) {
+			return false
+		}
+		for i := range a {
+			if !parquet.DeepEqual(a[i], b[i]) || a[i].Column() != b[i].Column() ||
+				a[i].RepetitionLevel() != b[i].RepetitionLevel() || a[i].DefinitionLevel() != b[i].DefinitionLevel() {
+				return false
+			}
+		}
+		return true
+	}
+	readAll := func(p parquet.Page) ([]parquet.Value, error) {
+		var vals []parquet.Value
+		vr := p.Values()
+		buf := make([]parquet.Value, 16)
+		for guard := 0; guard < 1<<20; guard++ {
+			n, err := vr.ReadValues(buf)
+			for _, v := range buf[:n] {
+				vals = append(vals, v.Clone())
+			}
+			if err == io.EOF {
+				return vals, nil
+			}
+			if err != nil {
+				return vals, err
+			}
+			if n == 0 {
+				return vals, fmt.Errorf("ReadValues returned 0 values and no error")
+			}
+		}
+		return vals, fmt.Errorf("ReadValues does not terminate")
+	}
+	// (1) slices
+	func() {
+		pages := cc.Pages()
+		defer pages.Close()
+		var got []parquet.Value
+		var cutsText []string
+		for guard := 0; guard < 100000; guard++ {
+			p, err := pages.ReadPage()
+			if err == io.EOF {
+				break
+			}
+			if err != nil {
+				fail("converted-page-slice:read-error", "ReadPage: "+err.Error(), nil)
+				return
+			}
+			n := p.NumRows()
+			bounds := []int64{0}
+			for k := r.Intn(3); k > 0 && n > 0; k-- {
+				bounds = append(bounds, r.Int63n(n+1))
+			}
+			bounds = append(bounds, n)
+			sort.Slice(bounds, func(i, j int) bool { return bounds[i] < bounds[j] })
+			for i := 1; i < len(bounds); i++ {
+				a, b := bounds[i-1], bounds[i]
+				cutsText = append(cutsText, fmt.Sprintf("[%d,%d)", a, b))
+				q := p.Slice(a, b)
+				if q.Column() != ci {
+					fail("converted-page-slice:page-column-index", fmt.Sprintf("Slice(%d,%d) of a page of target column %d reports column %d", a, b, ci, q.Column()), nil)
+					parquet.Release(p)
+					return
+				}
+				if q.NumRows() != b-a {
+					fail("converted-page-slice:row-count", fmt.Sprintf("Slice(%d,%d) of a page of %d rows has %d rows", a, b, n, q.NumRows()), nil)
+					parquet.Release(p)
+					return
+				}
+				vs, err := readAll(q)
+				if err != nil {
+					fail("converted-page-slice:read-error", fmt.Sprintf("values of Slice(%d,%d): %v", a, b, err), nil)
+					parquet.Release(p)
+					return
+				}
+				got = append(got, vs...)
+			}
+			parquet.Release(p)
+		}
+		for _, v := range got {
+			if v.Column() != ci {
+				fail("converted-page-slice:value-column-index", fmt.Sprintf("a value read from a page slice of target column %d carries column index %d", ci, v.Column()),
+					map[string]any{"slices": cutsText, "got": text(got)})
+				return
+			}
+		}
+		if !same(got, whole) {
+			fail("converted-page-slice:values-differ", "the slices of the pages yield other values than the whole pages",
+				map[string]any{"slices": cutsText, "whole": text(whole), "sliced": text(got)})
+		}
+	}()
+	// (2) seek: the values from row k on
+	func() {
+		var starts []int // index in whole of the first value of every row
+		for i, v := range whole {
+			if v.RepetitionLevel() == 0 {
+				starts = append(starts, i)
+			}
+		}
+		if len(starts) == 0 {
+			return
+		}
+		k := r.Intn(len(starts))
+		pages := cc.Pages()
+		defer pages.Close()
+		if err := pages.SeekToRow(int64(k)); err != nil {
+			fail("converted-chunk-seek:error", fmt.Sprintf("Pages().SeekToRow(%d): %v", k, err), nil)
+			return
+		}
+		var got []parquet.Value
+		for guard := 0; guard < 100000; guard++ {
+			p, err := pages.ReadPage()
+			if err == io.EOF {
+				break
+			}
+			if err != nil {
+				fail("converted-chunk-seek:error", fmt.Sprintf("ReadPage after SeekToRow(%d): %v", k, err), nil)
+				return
+			}
+			if p.Column() != ci {
+				fail("converted-chunk-seek:page-column-index", fmt.Sprintf("after SeekToRow(%d) a page of target column %d reports column %d", k, ci, p.Column()), nil)
+				parquet.Release(p)
+				return
+			}
+			vs, err := readAll(p)
+			parquet.Release(p)
+			if err != nil {
+				fail("converted-chunk-seek:error", err.Error(), nil)
+				return
+			}
+			got = append(got, vs...)
+		}
+		if want := whole[starts[k]:]; !same(got, want) {
+			fail("converted-chunk-seek:values-differ", fmt.Sprintf("after Pages().SeekToRow(%d) the chunk does not serve the values of rows %d..", k, k),
+				map[string]any{"seek": k, "expected": text(want), "got": text(got)})
+		}
+	}()
+	return fails
+}
+
 type c12Path struct {
 	name   string
 	chunks bool // reads the converted row group through its column chunks
@@ -937,6 +1119,11 @@ var c12Paths = []c12Path{
 					out.rawCols = make([][]parquet.Value, len(c.tleaves))
 				}
 				out.rawCols[ci] = append(out.rawCols[ci], vals...)
+				// the same chunk read through slices of its pages, and after a seek: the values and
+				// their column index must not depend on how the pages are cut
+				if c.cuts != nil {
+					out.extra = append(out.extra, c12SlicedChunk(cc, ci, vals, c.cuts)...)
+				}
 			}
 		}
 		return out, nil
@@ -947,6 +1134,68 @@ var c12Paths = []c12Path{
 			return nil, err
 		}
 		rd := parquet.NewReader(f, c.tgtS)
+		defer rd.Close()
+		rows, err := c12ReadRows(rd, c.batch)
+		if err != nil {
+			return nil, err
+		}
+		return c.rowsOut(ctx, rows)
+	}},
+	{"rowgroup-reader-schema", false, 1, func(ctx *core.Ctx, c *c12Case) (*c12Out, error) {
+		f, err := c.open()
+		if err != nil {
+			return nil, err
+		}
+		var out []parquet.Row
+		for _, rg := range f.RowGroups() {
+			rd := parquet.NewRowGroupReader(rg, c.tgtS)
+			rows, err := c12ReadRows(rd, c.batch)
+			rd.Close()
+			if err != nil {
+				return nil, err
+			}
+			out = append(out, rows...)
+		}
+		return c.rowsOut(ctx, out)
+	}},
+	{"generic-reader-schema", false, 1, func(ctx *core.Ctx, c *c12Case) (*c12Out, error) {
+		f, err := c.open()
+		if err != nil {
+			return nil, err
+		}
+		rd := parquet.NewGenericReader[any](f, c.tgtS)
+		defer rd.Close()
+		rows, err := c12ReadRows(rd, c.batch)
+		if err != nil {
+			return nil, err
+		}
+		return c.rowsOut(ctx, rows)
+	}},
+	{"generic-rowgroup-reader", false, 1, func(ctx *core.Ctx, c *c12Case) (*c12Out, error) {
+		f, err := c.open()
+		if err != nil {
+			return nil, err
+		}
+		var out []parquet.Row
+		for _, rg := range f.RowGroups() {
+			rd := parquet.NewGenericRowGroupReader[any](rg, c.tgtS)
+			rows, err := c12ReadRows(rd, c.batch)
+			rd.Close()
+			if err != nil {
+				return nil, err
+			}
+			out = append(out, rows...)
+		}
+		return c.rowsOut(ctx, out)
+	}},
+	{"generic-rowgroup-reader-buffer", false, 1, func(ctx *core.Ctx, c *c12Case) (*c12Out, error) {
+		b := parquet.NewBuffer(c.srcS)
+		for _, row := range c.rows {
+			if _, err := b.WriteRows([]parquet.Row{row.Clone()}); err != nil {
+				return nil, err
+			}
+		}
+		rd := parquet.NewGenericRowGroupReader[any](b, c.tgtS)
 		defer rd.Close()
 		rows, err := c12ReadRows(rd, c.batch)
 		if err != nil {
@@ -1085,7 +1334,7 @@ func c12AddedKey(p c12Path, c *c12Case, col int) string {
 
 // ---------------------------------------------------------------- the check
 
-const c12Rule = "random source schemas (required/optional/repeated leaves of 8 physical kinds, groups, LIST groups, depth <= 4, <= 10 leaves, field order kept by an ordered group node) x random targets (delete + permute at any depth, then one of: nothing / add optional, required, repeated leaves and groups incl. inside repeated groups and lists / required->optional / optional->required / an incompatible change) x random rows shredded by the harness reference shredder x 7 library paths (Convert+conversion.Convert, ConvertRowGroup rows and column chunks, NewReader(schema), CopyRows into a writer, WriteRowGroup of the converted row group, MergeRowGroups with a schema) + Read[T] pairs + sorted sources (2-3 declared sorting columns, asc/desc, buffers and files) x targets dropping every subset of the sorting columns (declared order of the converted row group and of the merge must be a true order of the rows); expected = reference shred of the projected value against the target schema; L2: conversion.Convert vs the Lean mirror convertRow and the harness projection vs the Lean spec; every library call runs in a worker subprocess (address-space limit, recover, timeout): a panic, fatal error or hang is an L1 failure of that case; non-trivial = the target differs from the source and a shared optional/repeated column holds both nulls and values"
+const c12Rule = "random source schemas (required/optional/repeated leaves of 8 physical kinds, groups, LIST groups, depth <= 4, <= 10 leaves, field order kept by an ordered group node) x random targets (pure permutation at every depth / delete + permute at any depth, then one of: nothing / add optional, required, repeated leaves and groups incl. inside repeated groups and lists / required->optional / optional->required / an incompatible change) x random rows shredded by the harness reference shredder x 11 library paths (Convert+conversion.Convert, ConvertRowGroup rows and column chunks - every chunk also re-read through Page.Slice at random row bounds and after Pages().SeekToRow(k) -, NewReader(schema), NewRowGroupReader(schema), NewGenericReader[any](schema), NewGenericRowGroupReader[any](schema) over a file row group and over a Buffer, CopyRows into a writer, WriteRowGroup of the converted row group, MergeRowGroups with a schema) + 5 struct pairs through Read[B], NewGenericReader[B], NewGenericRowGroupReader[B], Reader.Read(&B) and Reader.Read with the target type drawn per call + sorted sources (2-3 declared sorting columns, asc/desc, buffers and files) x targets dropping every subset of the sorting columns (declared order of the converted row group and of the merge must be a true order of the rows) + MergeRowGroups(schema, sorting) over two sorted files with small pages whose key ranges overlap in part (lone stretches > 1024 rows) read as rows, through CopyRows and WriteRowGroup; expected = reference shred of the projected value against the target schema; L2: conversion.Convert vs the Lean mirror convertRow, the harness projection vs the Lean spec, EqualNodes/SameNodes vs equalN/sameN, Reader.Read histories vs Rd.run; every library call runs in a worker subprocess (address-space limit, recover, timeout): a panic, fatal error or hang is an L1 failure of that case; non-trivial = the target differs from the source and a shared optional/repeated column holds both nulls and values"
 
 // RunC12 is the parent: it never calls the library itself. The cases run in worker
 // subprocesses (`pqcheck -worker c12 ...`); when a worker dies (fatal error: out of memory,
@@ -1108,6 +1357,10 @@ func RunC12(ctx *core.Ctx) {
 	go func() { defer wg.Done(); c12RunShard(ctx, "sorted", 0, ctx.Scale(60, 1500)) }()
 	wg.Add(1)
 	go func() { defer wg.Done(); c12RunShard(ctx, "seek", 0, ctx.Scale(300, 6000)) }()
+	for w := 0; w < 2; w++ {
+		wg.Add(1)
+		go func(w int) { defer wg.Done(); c12RunShard(ctx, "bigmerge", w, ctx.Scale(5, 60)) }(w)
+	}
 	for w := 0; w < 2; w++ {
 		wg.Add(1)
 		go func(w int) { defer wg.Done(); c12RunShard(ctx, "variant", w, ctx.Scale(100, 2000)) }(w)
@@ -1270,11 +1523,13 @@ func c12Worker(args []string) int {
 			case "random":
 				c12RandomCase(ctx, ask, &c12Gen{r: r}, shard == 0 && k < 3, at)
 			case "typed":
-				c12TypedCase(ctx, r, at)
+				c12TypedCase(ctx, ask, r, at)
 			case "sorted":
 				c12SortedCase(ctx, ask, r, at)
 			case "seek":
 				c12SeekCase(ctx, ask, r, at)
+			case "bigmerge":
+				c12BigMergeCase(ctx, r, at)
 			case "variant":
 				c12VariantCase(ctx, r, at)
 			}
@@ -1295,6 +1550,8 @@ func c12Worker(args []string) int {
 
 func c12Mode(r *rand.Rand) string {
 	switch x := r.Intn(100); {
+	case x < 8:
+		return "permute" // the target declares exactly the source fields, in another order
 	case x < 35:
 		return "drop-permute"
 	case x < 70:
@@ -1345,6 +1602,7 @@ func c12RandomCase(ctx *core.Ctx, d interface {
 	tgtText := sb.String()
 
 	c := &c12Case{src: src, tgt: tgt, batch: []int{1, 2, 3, 64}[r.Intn(4)], tleaves: tgt.leaves()}
+	c.cuts = rand.New(rand.NewSource(r.Int63()))
 	c.srcS = parquet.NewSchema("src", src.build())
 	c.tgtS = parquet.NewSchema("tgt", tgt.build())
 	sleaves := src.leaves()
@@ -1489,6 +1747,23 @@ func c12RandomCase(ctx *core.Ctx, d interface {
 		if p.name == "convert-rowgroup-chunks" && out != nil && err == nil {
 			chunkCols = out.rawCols
 		}
+		if out != nil {
+			for _, x := range out.extra {
+				key := x.key + ":" + tg.mode
+				ci, _ := x.detail["target_column_index"].(int)
+				if added, _, _ := c12AddedShape(src, tgt, c.tleaves[ci].path); added {
+					// a column the target adds is served by missingColumnChunk, which mirrors an
+					// adjacent column through one shared page reader: same mechanism, same family as
+					// the other failures of added columns on the column-chunk path
+					key = c12AddedKey(p, c, ci) + ":" + strings.SplitN(x.key, ":", 2)[0]
+				}
+				ctx.Fail("L1", key, "path "+p.name+", target column "+strings.Join(c.tleaves[ci].path, ".")+": "+x.what,
+					detail(map[string]any{"path": p.name, "column": strings.Join(c.tleaves[ci].path, "."), "finding": x.detail}))
+			}
+			if p.name == "convert-rowgroup-chunks" {
+				ctx.HistN("converted-chunks-reread-through-page-slices-and-seek", tg.mode, int64(len(c.tleaves)))
+			}
+		}
 		want := exp
 		wantRows := nrows
 		if p.dup == 2 {
@@ -1569,6 +1844,26 @@ func c12RandomCase(ctx *core.Ctx, d interface {
 	// L2: conversion.Convert row by row vs the Lean mirror; harness projection + shredder vs the Lean spec
 	if d == nil || tg.what == "type-string-to-int64" {
 		return
+	}
+	// L2: EqualNodes / SameNodes (the guards of the reader entry points) vs their Lean mirrors
+	{
+		var goEq, goSame bool
+		_, gerr := c12Guard(func() (*c12Out, error) {
+			goEq, goSame = parquet.EqualNodes(c.tgtS, c.srcS), parquet.SameNodes(c.tgtS, c.srcS)
+			return nil, nil
+		})
+		a, err := d.AskMany([]string{"convert.guards " + srcText + " " + tgtText})
+		b := map[bool]string{true: "1", false: "0"}
+		switch {
+		case gerr != nil:
+			ctx.Fail("L1", "path-panic:schema-comparison:"+tg.mode, gerr.Error(), detail(nil))
+		case err != nil:
+			ctx.Fail("L2", "driver-error", err.Error(), nil)
+		case a[0] != "ok "+b[goEq]+" "+b[goSame]+" 1 1":
+			ctx.Fail("L2", "schema-guards-vs-lean-mirror", "EqualNodes/SameNodes(target, source) and the Lean mirrors equalN/sameN disagree (or field names are not unique)",
+				detail(map[string]any{"go": "ok " + b[goEq] + " " + b[goSame] + " 1 1", "lean": a[0]}))
+		}
+		ctx.Hist("guards", "EqualNodes="+b[goEq]+" SameNodes="+b[goSame]+" ("+tg.mode+")")
 	}
 	reqs := make([]string, nrows)
 	for i := range reqs {
@@ -1738,6 +2033,33 @@ type c12B3 struct {
 type c12A4 struct {
 	F1 *string `parquet:"f1,optional"`
 }
+
+// pure permutation, at the top and inside groups; the columns that swap places have the same
+// physical type, so that unconverted rows would reconstruct without an error
+type c12Pos struct {
+	Lat  float64 `parquet:"lat"`
+	Lon  float64 `parquet:"lon"`
+	Note *string `parquet:"note,optional"`
+}
+type c12PosB struct {
+	Note *string `parquet:"note,optional"`
+	Lon  float64 `parquet:"lon"`
+	Lat  float64 `parquet:"lat"`
+}
+type c12A5 struct {
+	ID    int64    `parquet:"id"`
+	Name  string   `parquet:"name"`
+	Score int64    `parquet:"score"`
+	Pos   c12Pos   `parquet:"pos"`
+	Tags  []string `parquet:"tags"`
+}
+type c12B5 struct {
+	Tags  []string `parquet:"tags"`
+	Score int64    `parquet:"score"`
+	Pos   c12PosB  `parquet:"pos"`
+	Name  string   `parquet:"name"`
+	ID    int64    `parquet:"id"`
+}
 type c12N3 struct {
 	F4 []int64 `parquet:"f4"`
 }
@@ -1753,28 +2075,190 @@ func c12ReadAs[A, B any](ctx *core.Ctx, at func(path, mode string, detail any), 
 		ctx.Fail("L1", "typed-write-error:"+name, err.Error(), nil)
 		return
 	}
-	var got []B
-	_, err := c12Guard(func() (*c12Out, error) {
-		var err error
-		got, err = parquet.Read[B](bytes.NewReader(buf.Bytes()), int64(buf.Len()))
-		return nil, err
-	})
-	ctx.Case(name+fmt.Sprint(rows), true)
-	ctx.Hist("path", "read-typed:"+name)
-	if err != nil {
-		k := "path-error:read-typed:" + name + ":" + errClass(err)
-		if strings.HasPrefix(err.Error(), "PANIC") {
-			k = "path-panic:read-typed:" + name
+	file := buf.Bytes()
+	drain := func(rd *parquet.GenericReader[B]) ([]B, error) {
+		defer rd.Close()
+		var out []B
+		tmp := make([]B, 3)
+		for guard := 0; guard < 1<<20; guard++ {
+			n, err := rd.Read(tmp)
+			out = append(out, tmp[:n]...)
+			if err == io.EOF {
+				return out, nil
+			}
+			if err != nil {
+				return out, err
+			}
+			if n == 0 {
+				return out, fmt.Errorf("Read returned 0 rows and no error")
+			}
+			tmp = make([]B, 3)
 		}
-		ctx.Fail("L1", k, err.Error(), map[string]any{"rows": fmt.Sprintf("%+v", rows)})
+		return out, fmt.Errorf("Read does not terminate")
+	}
+	// every typed entry point that reads a file / row group written as A into B
+	entries := []struct {
+		name string
+		run  func() ([]B, error)
+	}{
+		{"read-typed", func() ([]B, error) { return parquet.Read[B](bytes.NewReader(file), int64(len(file))) }},
+		{"generic-reader-typed", func() ([]B, error) {
+			return drain(parquet.NewGenericReader[B](bytes.NewReader(file)))
+		}},
+		{"generic-rowgroup-reader-typed-file", func() ([]B, error) {
+			f, err := parquet.OpenFile(bytes.NewReader(file), int64(len(file)))
+			if err != nil {
+				return nil, err
+			}
+			var out []B
+			for _, rg := range f.RowGroups() {
+				got, err := drain(parquet.NewGenericRowGroupReader[B](rg))
+				out = append(out, got...)
+				if err != nil {
+					return out, err
+				}
+			}
+			return out, nil
+		}},
+		{"generic-rowgroup-reader-typed-buffer", func() ([]B, error) {
+			gb := parquet.NewGenericBuffer[A]()
+			if _, err := gb.Write(rows); err != nil {
+				return nil, err
+			}
+			return drain(parquet.NewGenericRowGroupReader[B](gb))
+		}},
+		{"reader-read-typed", func() ([]B, error) {
+			rd := parquet.NewReader(bytes.NewReader(file))
+			defer rd.Close()
+			var out []B
+			for guard := 0; guard < 1<<20; guard++ {
+				var b B
+				err := rd.Read(&b)
+				if err == io.EOF {
+					return out, nil
+				}
+				if err != nil {
+					return out, err
+				}
+				out = append(out, b)
+			}
+			return out, fmt.Errorf("Read does not terminate")
+		}},
+	}
+	for _, e := range entries {
+		at(e.name+":"+name, "typed", fmt.Sprintf("%+v", rows))
+		var got []B
+		_, err := c12Guard(func() (*c12Out, error) {
+			var err error
+			got, err = e.run()
+			return nil, err
+		})
+		ctx.Case(e.name+name+fmt.Sprint(rows), true)
+		ctx.Hist("path", e.name+":"+name)
+		if err != nil {
+			k := "path-error:" + e.name + ":" + name + ":" + errClass(err)
+			if strings.HasPrefix(err.Error(), "PANIC") {
+				k = "path-panic:" + e.name + ":" + name
+			}
+			if key != "" {
+				k = key
+			}
+			ctx.Fail("L1", k, err.Error(), map[string]any{"rows": fmt.Sprintf("%+v", rows), "entry": e.name})
+			continue
+		}
+		if !c12DeepEq(reflect.ValueOf(got), reflect.ValueOf(want)) {
+			k := key
+			if k == "" {
+				k = "shared-column-altered:" + e.name + ":" + name
+			}
+			ctx.Fail("L1", k, fmt.Sprintf("%s: %T read from rows written as %T", e.name, *new(B), *new(A)),
+				map[string]any{"rows": fmt.Sprintf("%+v", rows), "entry": e.name, "expected": c12Dump(reflect.ValueOf(want)), "got": c12Dump(reflect.ValueOf(got))})
+		}
+	}
+}
+
+// c12Retarget: one deprecated Reader over a file written as A, every Read call with a target
+// type drawn at random from {A, B}: the k-th call must yield row k seen through the type it was
+// given (the row cursor is shared, the conversion is that of the CURRENT target).
+func c12Retarget[A, B any](ctx *core.Ctx, d c12Asker, r *rand.Rand, at func(path, mode string, detail any), name string, rows []A, want []B) {
+	var buf bytes.Buffer
+	if _, err := c12Guard(func() (*c12Out, error) { return nil, parquet.Write(&buf, rows) }); err != nil {
+		ctx.Fail("L1", "typed-write-error:"+name, err.Error(), nil)
 		return
 	}
-	if !c12DeepEq(reflect.ValueOf(got), reflect.ValueOf(want)) {
-		if key == "" {
-			key = "shared-column-altered:read-typed:" + name
+	file := buf.Bytes()
+	var targets []string
+	for range rows {
+		targets = append(targets, []string{"A", "B"}[r.Intn(2)])
+	}
+	// runs of the same target of length >= 2 and switches both ways are wanted
+	det := map[string]any{"rows": fmt.Sprintf("%+v", rows), "targets": strings.Join(targets, ""), "written_as": fmt.Sprintf("%T", *new(A)), "other_target": fmt.Sprintf("%T", *new(B))}
+	at("reader-read-retarget:"+name, "typed", det)
+	switches := 0
+	for i := 1; i < len(targets); i++ {
+		if targets[i] != targets[i-1] {
+			switches++
 		}
-		ctx.Fail("L1", key, fmt.Sprintf("Read[%T] of a file written as %T", *new(B), *new(A)),
-			map[string]any{"rows": fmt.Sprintf("%+v", rows), "expected": c12Dump(reflect.ValueOf(want)), "got": c12Dump(reflect.ValueOf(got))})
+	}
+	ctx.Case("retarget"+name+fmt.Sprint(rows)+strings.Join(targets, ""), switches > 0)
+	ctx.Hist("path", "reader-read-retarget:"+name)
+	ctx.Hist("retarget-switches", fmt.Sprint(min(switches, 8)))
+	bad := ""
+	var goAns []string // per call: <target><row> when the call yields that row through that target
+	_, err := c12Guard(func() (*c12Out, error) {
+		rd := parquet.NewReader(bytes.NewReader(file))
+		defer rd.Close()
+		for i, tg := range targets {
+			var got, exp reflect.Value
+			var err error
+			if tg == "A" {
+				var a A
+				err = rd.Read(&a)
+				got, exp = reflect.ValueOf(a), reflect.ValueOf(rows[i])
+			} else {
+				var b B
+				err = rd.Read(&b)
+				got, exp = reflect.ValueOf(b), reflect.ValueOf(want[i])
+			}
+			if err != nil {
+				return nil, fmt.Errorf("call %d (target %s): %w", i, tg, err)
+			}
+			if c12DeepEq(got, exp) {
+				goAns = append(goAns, fmt.Sprintf("%s%d", tg, i))
+			} else {
+				goAns = append(goAns, "?")
+				if bad == "" {
+					bad = fmt.Sprintf("call %d (target %s): expected %s got %s", i, tg, c12Dump(exp), c12Dump(got))
+				}
+			}
+		}
+		var a A
+		if err := rd.Read(&a); err != io.EOF {
+			return nil, fmt.Errorf("call %d after the last row: %v instead of io.EOF", len(targets), err)
+		}
+		goAns = append(goAns, "eof")
+		return nil, nil
+	})
+	// L2: the Lean mirror of Reader.Read / reader.init / SeekToRow / ReadRows on the same history
+	if d != nil && err == nil {
+		if a, derr := d.AskMany([]string{fmt.Sprintf("convert.retarget %d %sA", len(rows), strings.Join(targets, ""))}); derr != nil {
+			ctx.Fail("L2", "driver-error", derr.Error(), nil)
+		} else if want := "ok " + strings.Join(goAns, ";"); a[0] != want {
+			ctx.Fail("L2", "reader-retarget-vs-lean-mirror", "Reader.Read with changing target types and the Lean mirror Rd.run disagree ('?' = a row that is not the expected one)",
+				map[string]any{"go": want, "lean": a[0], "case": det})
+		}
+	}
+	if err != nil {
+		k := "path-error:reader-read-retarget:" + name + ":" + errClass(err)
+		if strings.HasPrefix(err.Error(), "PANIC") {
+			k = "path-panic:reader-read-retarget:" + name
+		}
+		ctx.Fail("L1", k, err.Error(), det)
+		return
+	}
+	if bad != "" {
+		ctx.Fail("L1", "shared-column-altered:reader-read-retarget:"+name,
+			"Reader.Read with a target type that changes between calls: "+bad, det)
 	}
 }
 
@@ -1812,7 +2296,7 @@ func c12Dump(v reflect.Value) string {
 	return fmt.Sprintf("%#v", v.Interface())
 }
 
-func c12TypedCase(ctx *core.Ctx, r *rand.Rand, at func(path, mode string, detail any)) {
+func c12TypedCase(ctx *core.Ctx, d c12Asker, r *rand.Rand, at func(path, mode string, detail any)) {
 	p32 := func(x int32) *int32 { return &x }
 	pf := func(x float64) *float64 { return &x }
 	ps := func(x string) *string { return &x }
@@ -1826,6 +2310,8 @@ func c12TypedCase(ctx *core.Ctx, r *rand.Rand, at func(path, mode string, detail
 		var b3 []c12B3
 		var a4 []c12A4
 		var b4 []c12B4
+		var a5 []c12A5
+		var b5 []c12B5
 		for i := 0; i < n; i++ {
 			x := c12A1{X: r.Int63n(100) - 50, Y: fmt.Sprint("s", r.Intn(5))}
 			if r.Intn(2) == 0 {
@@ -1859,11 +2345,26 @@ func c12TypedCase(ctx *core.Ctx, r *rand.Rand, at func(path, mode string, detail
 			}
 			a4 = append(a4, z)
 			b4 = append(b4, c12B4{F1: z.F1})
+
+			u := c12A5{ID: int64(i), Name: fmt.Sprint("name-", i), Score: 1000 + r.Int63n(50), Pos: c12Pos{Lat: float64(i) / 4, Lon: -float64(i) / 2}}
+			if r.Intn(2) == 0 {
+				u.Pos.Note = ps(fmt.Sprint("note-", i))
+			}
+			for j := r.Intn(3); j > 0; j-- {
+				u.Tags = append(u.Tags, fmt.Sprint("t", i, "-", j))
+			}
+			a5 = append(a5, u)
+			b5 = append(b5, c12B5{ID: u.ID, Name: u.Name, Score: u.Score, Tags: u.Tags, Pos: c12PosB{Lat: u.Pos.Lat, Lon: u.Pos.Lon, Note: u.Pos.Note}})
 		}
 		c12ReadAs(ctx, at, "drop-permute-flat", "", a1, b1)
 		c12ReadAs(ctx, at, "drop-permute-in-repeated-group", "", a2, b2)
 		c12ReadAs(ctx, at, "add-optional-and-required-at-root", "", a3, b3)
 		c12ReadAs(ctx, at, "add-repeated-group-next-to-optional", "added-column-borrows-sibling-levels:repeated-next-to-optional-sibling", a4, b4)
+		c12ReadAs(ctx, at, "permute-only", "", a5, b5)
+		c12Retarget(ctx, d, r, at, "drop-permute-flat", a1, b1)
+		c12Retarget(ctx, d, r, at, "drop-permute-in-repeated-group", a2, b2)
+		c12Retarget(ctx, d, r, at, "add-optional-and-required-at-root", a3, b3)
+		c12Retarget(ctx, d, r, at, "permute-only", a5, b5)
 	}
 }
 
@@ -2269,6 +2770,231 @@ func c12DropShape(mask, n int) string {
 		return "dropped-none"
 	}
 	return "dropped-" + strings.Join(pos, "+")
+}
+
+// ---------------------------------------------------------------- merge of partly overlapping sorted files through a schema
+
+// One case: two files sorted by a required int64 `id`, written with small pages and page indexes,
+// whose key ranges overlap only in part (file A holds ids [0,nA), file B ids [lo,lo+nB) with
+// 0 < lo < nA < lo+nB and both lone stretches longer than the 1024 rows from which MergeRowGroups
+// serves a stretch as a row-range view over the column chunks of the converted row group). The
+// row of an id is a function of the id, so that the two copies of an id in the overlap are equal
+// and the merged sequence is fully determined. Target: fields deleted and permuted at any depth
+// (never `id`). Paths: MergeRowGroups(schema, sorting).Rows(); CopyRows of those rows into a
+// writer; WriteRowGroup of the merged row group. Expected: the reference shredding of the
+// projected rows in id order.
+func c12BigMergeCase(ctx *core.Ctx, r *rand.Rand, at func(path, mode string, detail any)) {
+	g := &c12Gen{r: r}
+	var src *c12Node
+	for {
+		src = g.schema()
+		if len(src.fields) >= 2 || src.numLeaves() >= 2 {
+			break
+		}
+	}
+	idf := &c12Node{name: "id", rep: 0, kind: 2}
+	pos := r.Intn(len(src.fields) + 1)
+	src.fields = append(src.fields[:pos:pos], append([]*c12Node{idf}, src.fields[pos:]...)...)
+	var tg *c12Target
+	for try := 0; ; try++ {
+		mode := "drop-permute"
+		if r.Intn(3) == 0 || try > 10 {
+			mode = "permute"
+		}
+		tg = g.target(src, mode)
+		if tg.node.field("id") != nil && tg.node.text() != src.text() {
+			break
+		}
+		if try > 20 {
+			break
+		}
+	}
+	tgt := tg.node
+	tleaves := tgt.leaves()
+	srcS := parquet.NewSchema("src", src.build())
+	tgtS := parquet.NewSchema("tgt", tgt.build())
+	nA := 1200 + r.Intn(1800)
+	lo := 1030 + r.Intn(nA-1030-20)
+	nB := (nA - lo) + 1030 + r.Intn(1500)
+	pageBytes := []int{256, 1024, 4096}[r.Intn(3)]
+	salt := r.Int63()
+	nullP := []float64{0.1, 0.4}[r.Intn(2)]
+	valOf := func(id int64) *c12Val {
+		rr := rand.New(rand.NewSource(salt ^ (id * 0x9E3779B97F4A7C)))
+		v := c12GenBody(rr, src, nullP, 2)
+		for i, f := range src.fields {
+			if f.name == "id" {
+				v.kids[i] = &c12Val{k: 'P', p: parquet.ValueOf(id)}
+			}
+		}
+		return v
+	}
+	det := map[string]any{"source": src.text(), "target": tgt.text(), "mode": tg.mode, "ops": tg.ops,
+		"file_a_ids": fmt.Sprintf("[0,%d)", nA), "file_b_ids": fmt.Sprintf("[%d,%d)", lo, lo+nB),
+		"page_buffer_size": pageBytes, "row_salt": salt, "null_probability": nullP,
+		"sorting": "id asc", "rows": "row(id) = c12GenBody(rand(salt ^ id*0x9E3779B97F4A7C), source, null_probability, 2) with id set"}
+	ctx.Case(fmt.Sprint(det), true)
+	ctx.Hist("big-merge-mode", tg.mode)
+	ctx.Hist("big-merge-page-buffer-size", fmt.Sprint(pageBytes))
+
+	sorting := parquet.SortingColumns(parquet.Ascending("id"))
+	write := func(from, n int) (*parquet.File, error) {
+		var buf bytes.Buffer
+		w := parquet.NewWriter(&buf, srcS, parquet.PageBufferSize(pageBytes), parquet.SortingWriterConfig(sorting))
+		batch := make([]parquet.Row, 0, 64)
+		for i := 0; i < n; i++ {
+			batch = append(batch, c12RowOf(c12ShredRow(src, valOf(int64(from+i)))))
+			if len(batch) == cap(batch) || i == n-1 {
+				if _, err := w.WriteRows(batch); err != nil {
+					return nil, err
+				}
+				batch = batch[:0]
+			}
+		}
+		if err := w.Close(); err != nil {
+			return nil, err
+		}
+		f, err := parquet.OpenFile(bytes.NewReader(buf.Bytes()), int64(buf.Len()))
+		if err != nil {
+			return nil, err
+		}
+		if len(f.RowGroups()) != 1 {
+			return nil, fmt.Errorf("%d row groups", len(f.RowGroups()))
+		}
+		return f, nil
+	}
+	var fa, fb *parquet.File
+	at("big-merge-source-write", tg.mode, det)
+	if _, err := c12Guard(func() (*c12Out, error) {
+		var err error
+		if fa, err = write(0, nA); err != nil {
+			return nil, err
+		}
+		fb, err = write(lo, nB)
+		return nil, err
+	}); err != nil {
+		ctx.Fail("L1", "source-write-error "+errClass(err), "cannot write the sorted source files: "+err.Error(), det)
+		return
+	}
+	// expected streams
+	var ids []int64
+	for a, b := 0, lo; a < nA || b < lo+nB; {
+		if b >= lo+nB || (a < nA && a <= b) {
+			ids = append(ids, int64(a))
+			a++
+		} else {
+			ids = append(ids, int64(b))
+			b++
+		}
+	}
+	exp := make([][]gen.Triple, len(tleaves))
+	for _, id := range ids {
+		cols := c12ShredRow(tgt, c12ProjectBody(src, tgt, valOf(id)))
+		for ci, col := range cols {
+			for _, x := range col {
+				exp[ci] = append(exp[ci], c12Canon(nil, x, tleaves[ci]))
+			}
+		}
+	}
+	cs := &c12Case{src: src, tgt: tgt, srcS: srcS, tgtS: tgtS, tleaves: tleaves}
+	merge := func() (parquet.RowGroup, error) {
+		m, err := parquet.MergeRowGroups([]parquet.RowGroup{fa.RowGroups()[0], fb.RowGroups()[0]}, tgtS, parquet.SortingRowGroupConfig(sorting))
+		if err != nil {
+			return nil, err
+		}
+		if int(m.NumRows()) != len(ids) {
+			return nil, fmt.Errorf("merged row group declares %d rows for %d", m.NumRows(), len(ids))
+		}
+		return m, nil
+	}
+	paths := []struct {
+		name string
+		run  func() (*c12Out, error)
+	}{
+		{"merge-sorted-overlapping-rows", func() (*c12Out, error) {
+			m, err := merge()
+			if err != nil {
+				return nil, err
+			}
+			rr := m.Rows()
+			defer rr.Close()
+			rows, err := c12ReadRows(rr, 100)
+			if err != nil {
+				return nil, err
+			}
+			return cs.rowsOut(ctx, rows)
+		}},
+		{"merge-sorted-overlapping-copy-rows", func() (*c12Out, error) {
+			m, err := merge()
+			if err != nil {
+				return nil, err
+			}
+			rr := m.Rows()
+			defer rr.Close()
+			var buf bytes.Buffer
+			w := parquet.NewWriter(&buf, tgtS)
+			n, err := parquet.CopyRows(w, rr)
+			if err != nil {
+				return nil, err
+			}
+			if err := w.Close(); err != nil {
+				return nil, err
+			}
+			if int(n) != len(ids) {
+				return nil, fmt.Errorf("CopyRows reported %d rows for %d", n, len(ids))
+			}
+			return cs.fileOut(ctx, buf.Bytes())
+		}},
+		{"merge-sorted-overlapping-write-rowgroup", func() (*c12Out, error) {
+			m, err := merge()
+			if err != nil {
+				return nil, err
+			}
+			var buf bytes.Buffer
+			w := parquet.NewWriter(&buf, tgtS)
+			if _, err := w.WriteRowGroup(m); err != nil {
+				return nil, err
+			}
+			if err := w.Close(); err != nil {
+				return nil, err
+			}
+			return cs.fileOut(ctx, buf.Bytes())
+		}},
+	}
+	for _, p := range paths {
+		at(p.name, tg.mode, det)
+		ctx.Hist("path", p.name)
+		out, err := c12Guard(p.run)
+		if err != nil && out == nil {
+			k := "path-error:" + p.name + ":" + tg.mode + ":" + errClass(err)
+			if strings.HasPrefix(err.Error(), "PANIC") {
+				k = "path-panic:" + p.name + ":" + tg.mode
+			}
+			ctx.Fail("L1", k, err.Error(), det)
+			continue
+		}
+		col, idx, desc := c12FirstDiff(exp, out.cols)
+		if col < 0 && err == nil && out.nrows == len(ids) {
+			continue
+		}
+		what := fmt.Sprintf("rows expected %d got %d", len(ids), out.nrows)
+		key := "row-count-or-structure:" + p.name + ":" + tg.mode
+		if err != nil {
+			what += "; " + err.Error()
+		}
+		if col >= 0 {
+			key = "shared-column-altered:" + p.name + ":" + tg.mode
+			what = fmt.Sprintf("target column %s (index %d), stream entry %d: %s", strings.Join(tleaves[col].path, "."), col, idx, desc)
+			if err != nil {
+				what += "; " + err.Error()
+			}
+		}
+		m := map[string]any{"path": p.name}
+		for k, v := range det {
+			m[k] = v
+		}
+		ctx.Fail("L1", key, "path "+p.name+": "+what, m)
+	}
 }
 
 // ---------------------------------------------------------------- ConvertRowReader: batches and seeks
